@@ -1,1 +1,318 @@
-(* placeholder *)
+(* Event-level abstraction of the ENTITY slice of bevy_sync (property C01, traffic bound of C09).
+
+   One host (peer 0) and any number of clients exchange EntitySpawn / EntityDelete /
+   InitialSync / FinishedInitialSync over reliable ordered links (renet ReliableOrdered channel).
+   The frame-level model is theories/Sync/Model.v (entity_created, entity_removed_server/client,
+   server_received, client_received, CSendInitialSync); this file keeps only what matters for
+   entity convergence and makes ONE observable thing happen per event:
+
+     EvSpawn p u    entity_created_on_server / entity_created_on_client picks up ONE newly
+                    marked entity and gives it the fresh uuid u
+     EvDespawn p u  entity_removed_from_server / _client notices that ONE tracked entity is gone
+     EvDeliver a b  poll_for_messages handles ONE message (server_received_a_message /
+                    client_received_a_message)
+     EvConnect c    ServerEvent::ClientConnected for c + c's verify_client_connected
+                    (InitialSync request)
+     EvLeave c      c vanishes from RenetServer::clients_id
+
+   What a client that is NOT connected may do (design decision, documented as requested):
+   the client's tracker systems (entity_created_on_client, entity_removed_from_client) and its
+   poll_for_messages run only in ClientState::Connected.  A non-connected client therefore
+   neither announces new entities nor notices despawns nor handles messages: EvSpawn c / EvDespawn c
+   are enabled only while c is in [conn]; an entity marked earlier is picked up by the first tracker
+   run after the connection, i.e. it is an EvSpawn after EvConnect.  "Connected" is a single notion
+   here: the host-side table [conn] (the client side reaches ClientState::Connected no earlier than
+   the host-side handshake, and c's first message on (c,0) is its EReqInit).
+
+   Everything is computable (lists + gmap + decidable equality on N): step, run, init, quiescentb,
+   agreeb, known_S11, known_S18, dropped_uuids, spec_alive are meant to be extracted and replayed
+   against real traces. *)
+From Coq Require Import NArith List Bool Lia.
+From stdpp Require Import gmap list.
+Local Open Scope N_scope.
+
+Definition uuid := N.
+Definition peer := N.     (* peer 0 is the host *)
+
+Inductive emsg := ESpawn (u : uuid) | EDelete (u : uuid) | EReqInit | EFinInit.
+
+Global Instance emsg_eq_dec : EqDecision emsg.
+Proof. solve_decision. Defined.
+
+Record astate := {
+  ents   : gmap peer (list uuid);          (* per peer: uuids of its live synchronized entities, one element per live entity *)
+  conn   : list peer;                      (* clients in the host's client table *)
+  synced : list peer;                      (* clients whose snapshot has been enqueued *)
+  links  : gmap (peer * peer) (list emsg); (* (src, dst) -> FIFO queue *)
+  used   : list uuid;                      (* uuids ever created (freshness) *)
+  sent   : N;                              (* ghost counter: messages ever enqueued (C09) *)
+}.
+
+Inductive event :=
+| EvSpawn (p : peer) (u : uuid)
+| EvDespawn (p : peer) (u : uuid)
+| EvDeliver (src dst : peer)
+| EvConnect (c : peer)
+| EvLeave (c : peer).
+
+(* ---------- views ---------------------------------------------------------------------------- *)
+
+Definition get_ents (s : astate) (p : peer) : list uuid := default [] (ents s !! p).
+Definition get_link (s : astate) (a b : peer) : list emsg := default [] (links s !! (a, b)).
+
+(* remove ONE occurrence *)
+Fixpoint remove1 (u : uuid) (l : list uuid) : list uuid :=
+  match l with
+  | [] => []
+  | x :: l' => if decide (x = u) then l' else x :: remove1 u l'
+  end.
+
+(* ---------- state updates -------------------------------------------------------------------- *)
+
+Definition set_ents (s : astate) (p : peer) (l : list uuid) : astate :=
+  {| ents := <[p := l]> (ents s); conn := conn s; synced := synced s; links := links s;
+     used := used s; sent := sent s |}.
+
+Definition add_used (s : astate) (u : uuid) : astate :=
+  {| ents := ents s; conn := conn s; synced := synced s; links := links s;
+     used := u :: used s; sent := sent s |}.
+
+Definition set_conn (s : astate) (cs sy : list peer) : astate :=
+  {| ents := ents s; conn := cs; synced := sy; links := links s; used := used s; sent := sent s |}.
+
+(* enqueue ms at the tail of link (a,b) *)
+Definition send (s : astate) (a b : peer) (ms : list emsg) : astate :=
+  {| ents := ents s; conn := conn s; synced := synced s;
+     links := <[(a, b) := get_link s a b ++ ms]> (links s);
+     used := used s; sent := sent s + N.of_nat (length ms) |}.
+
+(* replace the queue of (a,b) (used to pop the head) *)
+Definition set_link (s : astate) (a b : peer) (q : list emsg) : astate :=
+  {| ents := ents s; conn := conn s; synced := synced s; links := <[(a, b) := q]> (links s);
+     used := used s; sent := sent s |}.
+
+Definition drop_links (s : astate) (c : peer) : astate :=
+  {| ents := ents s; conn := conn s; synced := synced s;
+     links := delete (0, c) (delete (c, 0) (links s));
+     used := used s; sent := sent s |}.
+
+(* the host sends m to every client of cs *)
+Definition bcast (s : astate) (cs : list peer) (m : emsg) : astate :=
+  foldr (fun c s => send s 0 c [m]) s cs.
+
+Definition others (s : astate) (c : peer) : list peer := filter (fun x => x <> c) (conn s).
+
+(* host: broadcast to conn; client: one message to the host *)
+Definition announce (s : astate) (p : peer) (m : emsg) : astate :=
+  if decide (p = 0) then bcast s (conn s) m else send s p 0 [m].
+
+Definition peer_on (s : astate) (p : peer) : bool :=
+  bool_decide (p = 0) || bool_decide (p ∈ conn s).
+
+(* ---------- handlers ------------------------------------------------------------------------- *)
+
+(* server_received_a_message, from client c *)
+Definition host_handle (s : astate) (c : peer) (m : emsg) : astate :=
+  match m with
+  | ESpawn u =>                   (* no duplicate check on the host *)
+      bcast (set_ents s 0 (u :: get_ents s 0)) (others s c) (ESpawn u)
+  | EDelete u =>                  (* despawn if known; ALWAYS repeat_except_for_client *)
+      bcast (set_ents s 0 (remove1 u (get_ents s 0))) (others s c) (EDelete u)
+  | EReqInit =>                   (* send_initial_sync *)
+      let s := send s 0 c ((ESpawn <$> get_ents s 0) ++ [EFinInit]) in
+      set_conn s (conn s) (c :: synced s)
+  | EFinInit => s
+  end.
+
+(* client_received_a_message on client c; clients never relay *)
+Definition client_handle (s : astate) (c : peer) (m : emsg) : astate :=
+  match m with
+  | ESpawn u => if bool_decide (u ∈ get_ents s c) then s else set_ents s c (u :: get_ents s c)
+  | EDelete u => set_ents s c (remove1 u (get_ents s c))
+  | EReqInit | EFinInit => s
+  end.
+
+(* ---------- transition function -------------------------------------------------------------- *)
+
+Definition step (s : astate) (e : event) : option astate :=
+  match e with
+  | EvSpawn p u =>
+      if peer_on s p && bool_decide (u ∉ used s) then
+        Some (announce (add_used (set_ents s p (u :: get_ents s p)) u) p (ESpawn u))
+      else None
+  | EvDespawn p u =>
+      if peer_on s p && bool_decide (u ∈ get_ents s p) then
+        Some (announce (set_ents s p (remove1 u (get_ents s p))) p (EDelete u))
+      else None
+  | EvDeliver src dst =>
+      match get_link s src dst with
+      | [] => None
+      | m :: q =>
+          let s1 := set_link s src dst q in
+          if decide (dst = 0) then
+            if decide (src = 0) then None else Some (host_handle s1 src m)
+          else if decide (src = 0) then Some (client_handle s1 dst m)
+          else None
+      end
+  | EvConnect c =>
+      if bool_decide (c <> 0) && bool_decide (c ∉ conn s) then
+        Some (send (set_conn s (c :: conn s) (synced s)) c 0 [EReqInit])
+      else None
+  | EvLeave c =>
+      if bool_decide (c ∈ conn s) then
+        Some (drop_links (set_conn s (filter (fun x => x <> c) (conn s))
+                                     (filter (fun x => x <> c) (synced s))) c)
+      else None
+  end.
+
+Fixpoint run (s : astate) (tr : list event) : option astate :=
+  match tr with
+  | [] => Some s
+  | e :: tr' => match step s e with Some s' => run s' tr' | None => None end
+  end.
+
+Definition init : astate :=
+  {| ents := ∅; conn := []; synced := []; links := ∅; used := []; sent := 0 |}.
+
+(* ---------- observations --------------------------------------------------------------------- *)
+
+Definition quiescentb (s : astate) : bool :=
+  forallb (fun kq => match snd kq with [] => true | _ => false end) (map_to_list (links s)).
+Definition quiescent (s : astate) : Prop := forall a b, get_link s a b = [].
+
+Definition same_set (l1 l2 : list uuid) : bool :=
+  forallb (fun u => bool_decide (u ∈ l2)) l1 && forallb (fun u => bool_decide (u ∈ l1)) l2.
+
+(* the host and every connected, synced client hold the same set of uuids, each exactly once *)
+Definition agree (s : astate) : Prop :=
+  NoDup (get_ents s 0) /\
+  forall c, c ∈ conn s -> c ∈ synced s ->
+    NoDup (get_ents s c) /\ forall u, u ∈ get_ents s c <-> u ∈ get_ents s 0.
+
+Definition agreeb (s : astate) : bool :=
+  bool_decide (NoDup (get_ents s 0)) &&
+  forallb (fun c => if bool_decide (c ∈ synced s)
+                    then bool_decide (NoDup (get_ents s c)) && same_set (get_ents s c) (get_ents s 0)
+                    else true) (conn s).
+
+(* ---------- specification side: what the trace says ------------------------------------------ *)
+
+Definition spawned (tr : list event) : list uuid :=
+  omap (fun e => match e with EvSpawn _ u => Some u | _ => None end) tr.
+Definition despawned (tr : list event) : list uuid :=
+  omap (fun e => match e with EvDespawn _ u => Some u | _ => None end) tr.
+(* uuids spawned in tr and not despawned in tr *)
+Definition spec_alive (tr : list event) : list uuid :=
+  filter (fun u => u ∉ despawned tr) (spawned tr).
+
+Definition msg_uuid (m : emsg) : list uuid :=
+  match m with ESpawn u | EDelete u => [u] | _ => [] end.
+
+(* generic monitors over a run: [scan bad s tr] = some step of the run of tr from s is taken in a
+   state/event pair satisfying bad; [collect f s tr] concatenates f over the steps *)
+Fixpoint scan (bad : astate -> event -> bool) (s : astate) (tr : list event) : bool :=
+  match tr with
+  | [] => false
+  | e :: tr' => bad s e || match step s e with Some s' => scan bad s' tr' | None => false end
+  end.
+Fixpoint collect {A} (f : astate -> event -> list A) (s : astate) (tr : list event) : list A :=
+  match tr with
+  | [] => []
+  | e :: tr' => f s e ++ match step s e with Some s' => collect f s' tr' | None => [] end
+  end.
+
+(* uuids mentioned by announcements that were LOST because their sender left while they were
+   still in flight towards the host.  For these uuids the trace alone does not determine the
+   outcome (a lost ESpawn: the entity stays local to the departed client; a lost EDelete: the entity
+   survives everywhere else); for all other uuids the host ends with exactly spec_alive. *)
+Definition dropped_at (s : astate) (e : event) : list uuid :=
+  match e with EvLeave c => mjoin (msg_uuid <$> get_link s c 0) | _ => [] end.
+Definition dropped_uuids (tr : list event) : list uuid := collect dropped_at init tr.
+
+(* membership of u at a client after it has handled the queue q, starting from membership b *)
+Definition after_msg (u : uuid) (b : bool) (m : emsg) : bool :=
+  match m with
+  | ESpawn v => if decide (v = u) then true else b
+  | EDelete v => if decide (v = u) then false else b
+  | _ => b
+  end.
+Definition after_msgs (u : uuid) (b : bool) (q : list emsg) : bool := foldl (after_msg u) b q.
+
+(* c's InitialSync request has not been handled yet (it is always the head of (c,0)) *)
+Definition pending (s : astate) (c : peer) : bool :=
+  match get_link s c 0 with EReqInit :: _ => true | _ => false end.
+
+(* ---------- known defect classes ------------------------------------------------------------- *)
+
+(* S11: a client (re-)connects while it still holds synchronized entities from an earlier
+   session.  (A client that was never connected holds nothing: EvSpawn needs a connection.)
+   The snapshot carries no deletions and the host never learns about entities whose ESpawn was
+   dropped, so stale replicas survive. *)
+Definition bad_S11 (s : astate) (e : event) : bool :=
+  match e with
+  | EvConnect c => match get_ents s c with [] => false | _ => true end
+  | _ => false
+  end.
+Definition known_S11 (tr : list event) : bool := scan bad_S11 init tr.
+
+(* S18: a client c despawns its replica of u while a (re-)creation of u is still on its way to c:
+   the last message about u queued on (0,c) is an ESpawn (a live/snapshot duplicate), or c's
+   snapshot has not been built yet and the host holds u (the snapshot will contain u).  c's EDelete
+   is never echoed back to c, so the late ESpawn re-creates u on c only. *)
+Definition bad_S18 (s : astate) (e : event) : bool :=
+  match e with
+  | EvDespawn c u =>
+      bool_decide (c <> 0) &&
+      (after_msgs u false (get_link s 0 c) || (pending s c && bool_decide (u ∈ get_ents s 0)))
+  | _ => false
+  end.
+Definition known_S18 (tr : list event) : bool := scan bad_S18 init tr.
+
+(* A wider, purely "temporal" description of the S18 class: c despawns something between its
+   EvConnect and the delivery of its EFinInit. *)
+Definition in_sync_window (s : astate) (c : peer) : bool :=
+  bool_decide (c ∈ conn s) &&
+  (negb (bool_decide (c ∈ synced s)) || bool_decide (EFinInit ∈ get_link s 0 c)).
+Definition bad_S18_window (s : astate) (e : event) : bool :=
+  match e with
+  | EvDespawn c u => bool_decide (c <> 0) && in_sync_window s c
+  | _ => false
+  end.
+Definition known_S18_window (tr : list event) : bool := scan bad_S18_window init tr.
+
+(* ---------- traffic monitors (C09) ----------------------------------------------------------- *)
+
+Definition is_op (e : event) : bool :=
+  match e with EvSpawn _ _ | EvDespawn _ _ => true | _ => false end.
+Definition is_connect (e : event) : bool :=
+  match e with EvConnect _ => true | _ => false end.
+Fixpoint countb (f : event -> bool) (tr : list event) : N :=
+  match tr with
+  | [] => 0
+  | e :: tr' => (if f e then 1 else 0) + countb f tr'
+  end.
+Definition ops (tr : list event) : N := countb is_op tr.
+Definition connects (tr : list event) : N := countb is_connect tr.
+
+(* size of the snapshot built by this step (0 if the step is not the handling of an EReqInit) *)
+Definition snapshot_at (s : astate) (e : event) : list N :=
+  match e with
+  | EvDeliver src dst =>
+      match get_link s src dst with
+      | EReqInit :: _ =>
+          if decide (dst = 0) then
+            if decide (src = 0) then [] else [N.of_nat (length (get_ents s 0)) + 1]
+          else []
+      | _ => []
+      end
+  | _ => []
+  end.
+Definition snapshots (tr : list event) : N := foldr N.add 0 (collect snapshot_at init tr).
+
+(* largest client table seen during the run (including the final state) *)
+Fixpoint max_conn (s : astate) (tr : list event) : N :=
+  N.max (N.of_nat (length (conn s)))
+        (match tr with
+         | [] => 0
+         | e :: tr' => match step s e with Some s' => max_conn s' tr' | None => 0 end
+         end).
